@@ -1,22 +1,14 @@
 package main
 
-import (
-	"fmt"
-	"time"
-
-	"github.com/jf-tech/omniparser/customfuncs"
-)
+import "fmt"
 
 func init() {
 	cmds["probe"] = func(args []string) int {
-		for _, z := range []string{"America/New_York", "Asia/Kathmandu", "Pacific/Kiritimati", "Etc/GMT+12", "Australia/Lord_Howe"} {
-			_, err := time.LoadLocation(z)
-			fmt.Println(z, err)
-		}
-		fmt.Println(customfuncs.DateTimeToEpoch(nil, "9999-12-31T23:59:59Z", "", "MILLISECOND"))
-		fmt.Println(customfuncs.DateTimeToEpoch(nil, "9999-12-31T23:59:59Z", "", "SECOND"))
-		fmt.Println(customfuncs.EpochToDateTimeRFC3339(nil, "253402300799000", "MILLISECOND"))
-		fmt.Println(customfuncs.DateTimeToRFC3339(nil, "0001-01-01T00:00:00", "America/New_York", "Asia/Tokyo"))
+		s := `{"parser_settings": {"version": "omni.2.1", "file_format_type": "xml"},
+ "transform_declarations": {"FINAL_OUTPUT": {"object": {"a": {"template": "T"}}},
+   "T": {"xpath_dynamic": {"custom_func": {"name": "concat", "args": [null]}}}}}`
+		_, err, p := newSchema([]byte(s))
+		fmt.Println("err:", err, "panic:", p)
 		return 0
 	}
 }
